@@ -457,7 +457,7 @@ func randLeaf(r *rand.Rand, unsync bool) *core.Entry {
 }
 
 func randTree(r *rand.Rand, depth int, unsync bool) *core.Entry {
-	if depth == 0 || r.Intn(4) == 0 {
+	if depth <= 0 || r.Intn(4) == 0 {
 		return randLeaf(r, unsync)
 	}
 	c := map[string]*core.Entry{}
@@ -479,7 +479,8 @@ func mutate(r *rand.Rand, e *core.Entry, depth int, unsync bool) *core.Entry {
 		}
 	}
 	out := map[string]*core.Entry{}
-	for n, ch := range e.Contents {
+	for _, n := range vtree.SortedNames(e) {
+		ch := e.Contents[n]
 		switch r.Intn(7) {
 		case 0:
 		case 1:
